@@ -3,8 +3,8 @@ C02 — abstract model of `openapi3.Loader` reference resolution (openapi3/loade
 
 Objects (`Obj`) are the Go objects at reference-capable positions (`*HeaderRef`, …, `*PathItem`): either a
 reference (`ref = some text`) or a value with child positions. `kids` are the child positions the resolver
-of that kind walks (in the order of the Go code); `skipped` are the reference-capable child positions
-that no resolver ever visits (DESIGN §7 #13). `home` is the context the object is written in.
+of that kind walks (in the order of the Go code; since cbb0d05 every reference-capable position is walked).
+`home` is the context the object is written in.
 
 A context (`Loc`) is the pair `(doc, documentPath)` a resolver runs with. The loader passes it along as
 parameters, it is NOT a function of the object: after `component.Value = resolved.Value` every resolver
@@ -17,20 +17,24 @@ to continue in and the target object. The concrete layer (`LoaderJson.lean`) ins
 loader's own path joining + typed drill-down (`stepGo`); the specification side follows RFC 3986 +
 RFC 6901 in the raw JSON (`stepSpec`). Everything in this file is parametric in it.
 
-`resolve` follows the ten `resolve*Ref` routines (one skeleton):
+`resolve` follows the ten `resolve*Ref` routines (one skeleton, checked against the generated table
+`Gen.resolverSkeleton` statement by statement):
   * `component.Value != nil`           → nothing to do,
   * `shouldVisitRef` false (the reference TEXT is in `visitedRefs`) → a backtrack callback is registered,
   * `visitRef`; `resolveRefAndDocument` loads and WALKS the referenced document the first time it is
     seen (`visitedDocuments`), with the current in-progress set,
-  * an empty target (`errMUST…` swallowed, no `unvisitRef`), drill-down, type check (wrong kind → error;
-    a typed nil → panic),
-  * recursive resolve of the target (a local copy when the target is itself a reference) in ITS context,
-  * `component.Value = …`, then the second walk of the value's children in the REFERRING context,
-  * deferred `unvisitRef`: with a non-nil value the callbacks registered under this TEXT are run — the type
-    assertion inside a callback of another kind panics (#12); with a nil value they are dropped (#34).
-Path items have no recursive call on the target (`resolvePathItemRef` copies the target struct): a
-target that is itself an unresolved reference leaves the path item empty.
-Fuel measures nesting depth only (`foldRes` iterates siblings with the same fuel).
+  * an empty target (`errMUST…` swallowed, no `unvisitRef`: the text STAYS in `visitedRefs`), drill-down,
+    type check (wrong kind → error; a nil pointer on the way → error since 25200f7),
+  * recursive resolve of the target (a local copy when the target is itself a reference) in ITS context —
+    since 9b25d89 for path items too (`if resolved.Ref != ""`),
+  * `component.Value = …`, then the second walk of the value's children: in the REFERRING context for the
+    nine component kinds (`doc, componentPath, err :=` are locals of the else-block), in the TARGET's context
+    for path items (`doc, documentPath, err =` overwrites the parameters),
+  * deferred `unvisitRef`: with a non-nil value the callbacks registered under this TEXT are run — a callback
+    of another kind leaves its component unresolved (ok-checked type assertion since a04fe6c; counted in
+    `nskip`); with a nil value they are dropped (#34; counted in `nnil`).
+Fuel measures nesting depth only (`foldRes` iterates siblings with the same fuel); `Lemmas/C02Term.lean`
+proves an explicit bound under which `outOfFuel` cannot occur.
 -/
 namespace KinModel.Loader
 
@@ -46,7 +50,6 @@ structure Node where
   kind    : Kind
   ref     : Option Text
   kids    : List Obj := []
-  skipped : List Obj := []
   home    : Loc := 0
   /-- set on the local copy `resolved` that a resolver makes of a target that is itself a reference:
       the copy is taken when the target is reached, with whatever value the original has by then -/
@@ -63,12 +66,9 @@ structure World where
       (the kind only matters for whole-file and untyped targets, which are decoded as that kind):
       the context to continue in, and the target object -/
   target : Loc → Text → Kind → Option (Loc × Obj)
-  /-- the resolver walks the children of the value a second time in the referring context
-      (fragment references of every kind but path items) -/
+  /-- the resolver of a component kind walks the children of the value a second time in the referring
+      context (fragment references; a whole-file load sets the value and walks it once) -/
   rewalk : Loc → Text → Kind → Bool := fun _ _ _ => true
-  /-- a dangling reference whose last pointer step is an absent optional typed field: the drill-down
-      returns a typed nil and `resolveComponent` dereferences it -/
-  crashes : Loc → Text → Kind → Bool := fun _ _ _ => false
   /-- the drill-down yields an EMPTY component (no `$ref`, no value — the fragment `#` of a document
       without extensions): `errMUST…` is swallowed and the routine returns before `unvisitRef` is deferred -/
   emptyTarget : Loc → Text → Kind → Bool := fun _ _ _ => false
@@ -81,16 +81,27 @@ structure St where
   pending : List (Text × Obj) := []   -- backtrack callbacks
   docs    : List Loc := []            -- visitedDocuments
   foreign : Bool := false             -- some reference was evaluated in a context that is not its home
+  tclash  : Bool := false             -- some callback fired for a reference whose own one-step target differs from the visitor's (#29)
+  done    : List Obj := []            -- objects whose resolver call has returned nil (instrumentation only)
   nback   : Nat := 0                  -- callbacks ever registered (instrumentation only)
   nnil    : Nat := 0                  -- `unvisitRef` calls with a nil value (instrumentation only)
+  nskip   : Nat := 0                  -- callbacks that found a value of another kind and returned (instrumentation only)
+  nempty  : Nat := 0                  -- swallowed `errMUST…`: returns without `unvisitRef` (instrumentation only)
   deriving Repr
 
 def St.get (s : St) (o : Obj) : Option Obj := (s.value.find? (·.1 = o)).map (·.2)
 
+/-- the two event flags of a run (kept in errors for classification only) -/
+structure Flags where
+  foreign : Bool
+  tclash  : Bool
+  deriving Repr
+
+def St.flags (s : St) : Flags := ⟨s.foreign, s.tclash⟩
+
 inductive Res
   | ok (s : St)
-  | err (foreign : Bool)     -- load error (with the `foreign` flag at that moment, for classification only)
-  | panic (foreign : Bool)   -- interface-conversion panic inside a backtrack callback / nil dereference
+  | err (fl : Flags)         -- load error (with the event flags at that moment, for classification only)
   | outOfFuel
   deriving Repr
 
@@ -116,16 +127,25 @@ def valueOf (w : World) (tgt : Obj) (s : St) : Option Obj :=
 
 def kindOf (w : World) (o : Obj) : Option Kind := (w.node o).map (·.kind)
 
-/-- `unvisitRef(ref, value)` -/
-def unvisit (w : World) (k : Kind) (t : Text) (v : Option Obj) (s : St) : Res :=
+/-- the one-step target of a reference object evaluated where it is written -/
+def homeTarget (w : World) (t : Text) (m : Obj) : Option (Loc × Obj) :=
+  (w.node m).bind (fun nm => w.target nm.home t nm.kind)
+
+/-- `unvisitRef(ref, value)`: the callbacks registered under the text run when the value is non-nil; a
+    callback registered by a resolver of another kind returns without doing anything. `tg` is the visitor's own
+    one-step target: `tclash` records that a callback fired for a reference which, read where it is written, goes
+    somewhere else (the table is keyed by the text alone, #29). -/
+def unvisit (w : World) (k : Kind) (t : Text) (tg : Option (Loc × Obj)) (v : Option Obj) (s : St) : Res :=
   match v with
   | none => .ok { s with inprog := s.inprog.erase t, pending := s.pending.filter (·.1 ≠ t), nnil := s.nnil + 1 }
   | some v =>
     let mine := s.pending.filter (·.1 = t)
-    if mine.any (fun p => kindOf w p.2 != some k) then .panic s.foreign
-    else .ok { s with value := s.value ++ mine.map (fun p => (p.2, v)),
-                      inprog := s.inprog.erase t,
-                      pending := s.pending.filter (·.1 ≠ t) }
+    let fit := mine.filter (fun p => kindOf w p.2 == some k)
+    .ok { s with value := s.value ++ fit.map (fun p => (p.2, v)),
+                 inprog := s.inprog.erase t,
+                 pending := s.pending.filter (·.1 ≠ t),
+                 tclash := s.tclash || fit.any (fun p => homeTarget w t p.2 != tg),
+                 nskip := s.nskip + (mine.length - fit.length) }
 
 /-- `loadFromDataWithPathInternal`: a document not yet in `visitedDocuments` is registered and walked -/
 def loadDoc (w : World) (rs : Loc → Nat → St → Res) (d : Option Loc) (s : St) : Res :=
@@ -135,48 +155,55 @@ def loadDoc (w : World) (rs : Loc → Nat → St → Res) (d : Option Loc) (s : 
     if s.docs.contains l then .ok s
     else foldRes (rs l) (w.roots l) { s with docs := s.docs ++ [l] }
 
-/-- `component.Value = value`, the second walk of the value's children in the referring context `cx`
-    (`rw`), then the deferred `unvisitRef` -/
-def finish (w : World) (rs : Nat → St → Res) (k : Kind) (t : Text) (o : Obj) (rw : Bool) (v : Option Obj) (s : St) : Res :=
+/-- `component.Value = value`, the second walk of the value's children (`rw`; `rs` runs in the context the
+    routine continues with), then the deferred `unvisitRef` -/
+def finish (w : World) (rs : Nat → St → Res) (k : Kind) (t : Text) (tg : Option (Loc × Obj)) (o : Obj) (rw : Bool) (v : Option Obj) (s : St) : Res :=
   match v with
-  | none => unvisit w k t none s
+  | none => unvisit w k t tg none s
   | some v =>
     let s1 := { s with value := s.value ++ [(o, v)] }
     let kids := if rw then ((w.node v).map (·.kids)).getD [] else []
     match foldRes rs kids s1 with
-    | .ok s2 => unvisit w k t (some v) s2
+    | .ok s2 => unvisit w k t tg (some v) s2
     | e => e
+
+/-- the resolver call on `o` returned nil -/
+def markDone (o : Obj) : Res → Res
+  | .ok s => .ok { s with done := s.done ++ [o] }
+  | e => e
 
 def resolve (w : World) : Nat → Loc → Obj → St → Res
   | 0, _, _, _ => .outOfFuel
   | fuel + 1, cx, o, s =>
     match w.node o with
-    | none => .err s.foreign
+    | none => .err s.flags
     | some n =>
       match n.ref with
-      | none => foldRes (fun k s => resolve w fuel cx k s) n.kids s
+      | none => markDone o (foldRes (fun k s => resolve w fuel cx k s) n.kids s)
       | some t =>
-        if (getC w s o).isSome then .ok s
-        else if s.inprog.contains t then .ok { s with pending := s.pending ++ [(t, o)], nback := s.nback + 1 }
+        if (getC w s o).isSome then markDone o (.ok s)
+        else if s.inprog.contains t then markDone o (.ok { s with pending := s.pending ++ [(t, o)], nback := s.nback + 1 })
         else
           let s1 := { s with inprog := s.inprog ++ [t], foreign := s.foreign || (cx != n.home) }
           -- resolveRefAndDocument → loadFromURIInternal → ResolveRefsIn of a document seen for the first time
           match loadDoc w (fun l k s => resolve w fuel l k s) (w.docOf cx t) s1 with
           | .ok s2 =>
-            if w.emptyTarget cx t n.kind then .ok s2 else
+            if w.emptyTarget cx t n.kind then markDone o (.ok { s2 with nempty := s2.nempty + 1 }) else
             match w.target cx t n.kind with
-            | none => if w.crashes cx t n.kind then .panic s2.foreign else .err s2.foreign     -- dangling
+            | none => .err s2.flags                                     -- dangling
             | some (cx', tgt) =>
               match w.node tgt with
-              | none => .err s2.foreign
+              | none => .err s2.flags
               | some tn =>
-                if tn.kind ≠ n.kind then .err s2.foreign                -- wrong kind ("bad data in …")
-                else if n.kind = Kind.pathItem ∧ tn.ref.isSome then
-                  -- resolvePathItemRef: struct copy, no recursive resolution of the target
-                  finish w (fun k s => resolve w fuel cx k s) n.kind t o false (s2.get tgt) s2
+                if tn.kind ≠ n.kind then .err s2.flags                -- wrong kind ("bad data in …")
                 else
                   match resolve w fuel cx' tgt s2 with
-                  | .ok s3 => finish w (fun k s => resolve w fuel cx k s) n.kind t o (w.rewalk cx t n.kind) (valueOf w tgt s3) s3
+                  | .ok s3 =>
+                    -- path items: `doc, documentPath, err = resolveComponent(…)` — the rest of the routine runs
+                    -- in the target's context; the copy is resolved only `if resolved.Ref != ""`
+                    let wcx := if n.kind = Kind.pathItem then cx' else cx
+                    let rw := if n.kind = Kind.pathItem then tn.ref.isSome else w.rewalk cx t n.kind
+                    markDone o (finish w (fun k s => resolve w fuel wcx k s) n.kind t (some (cx', tgt)) o rw (valueOf w tgt s3) s3)
                   | e => e
           | e => e
 
@@ -204,12 +231,13 @@ def designates (w : World) : Nat → Obj → Option Obj
           | none => none
           | some tn => if tn.kind = n.kind then designates w fuel tgt else none
 
-/-- #29: within one load a reference text designates the same target from every home it is written in -/
+/-- #29, the static condition: within one load a reference text designates the same target from every home it is
+    written in. (The theorems use the weaker per-run flag `tclash`; a world with this property never raises it.) -/
 def TextIsGlobal (w : World) : Prop :=
   ∀ a b na nb t, w.node a = some na → w.node b = some nb → na.ref = some t → nb.ref = some t →
     na.kind = nb.kind → w.target na.home t na.kind = w.target nb.home t nb.kind
 
-/-- #12: a reference text is used by reference objects of one kind only -/
+/-- a reference text is used by reference objects of one kind only -/
 def NoKindClash (w : World) : Prop :=
   ∀ a b na nb t, w.node a = some na → w.node b = some nb → na.ref = some t → nb.ref = some t → na.kind = nb.kind
 
@@ -224,5 +252,12 @@ def Good (w : World) (s : St) : Prop := ∀ o v, (o, v) ∈ s.value → ∃ f, d
 /-- a pending entry is a reference object carrying exactly the text it waits for -/
 def PendingOK (w : World) (s : St) : Prop :=
   ∀ t m, (t, m) ∈ s.pending → ∃ n, w.node m = some n ∧ n.ref = some t
+
+/-- the objects the loaded document graph consists of: the root positions, the children of reached values,
+    and the value a reached reference was given -/
+inductive Reach (w : World) (s : St) (root : Loc) : Obj → Prop
+  | root {o} : o ∈ w.roots root → Reach w s root o
+  | kid {o k n} : Reach w s root o → w.node o = some n → n.ref = none → k ∈ n.kids → Reach w s root k
+  | val {o v} : Reach w s root o → s.get o = some v → Reach w s root v
 
 end KinModel.Loader
